@@ -219,6 +219,59 @@ func pruneAbsent(ms *yang.ModSet, on map[string]bool, keepEmptyCase bool) (*yang
 		walk(m)
 		// an emptied choice/case/list body is still valid for the compiler? keep as is.
 	}
+	// statements whose target lies in what a deleted module-level augment would have added have nothing to reach
+	norm := func(m *yang.Stmt, path string) string {
+		imports := map[string]string{c14ModPrefix(m): c14ModName(m)}
+		for _, imp := range m.FindAll("import") {
+			imports[imp.Find("prefix").Arg] = imp.Arg
+		}
+		var steps []string
+		for _, st := range strings.Split(strings.Trim(path, "/"), "/") {
+			if i := strings.Index(st, ":"); i >= 0 {
+				st = imports[st[:i]] + ":" + st[i+1:]
+			} else {
+				st = c14ModName(m) + ":" + st
+			}
+			steps = append(steps, st)
+		}
+		return "/" + strings.Join(steps, "/")
+	}
+	var gone []string
+	for i, m := range ms.Mods {
+		for _, a := range m.FindAll("augment") {
+			kept := false
+			for _, b := range out.Mods[i].FindAll("augment") {
+				kept = kept || b.Arg == a.Arg && len(b.Kids) > 0 && len(a.Kids) > 0 && b.Kids[len(b.Kids)-1].Arg == a.Kids[len(a.Kids)-1].Arg
+			}
+			if !kept {
+				for _, k := range a.Kids {
+					if c14DataKw[k.Kw] {
+						gone = append(gone, norm(m, a.Arg)+"/"+c14ModName(m)+":"+k.Arg)
+					}
+				}
+			}
+		}
+	}
+	if len(gone) > 0 {
+		for _, m := range out.Mods {
+			var kids []*yang.Stmt
+			for _, k := range m.Kids {
+				drop := false
+				if k.Kw == "augment" || k.Kw == "deviation" {
+					t := norm(m, k.Arg)
+					for _, g := range gone {
+						drop = drop || t == g || strings.HasPrefix(t, g+"/")
+					}
+				}
+				if drop {
+					removed++
+					continue
+				}
+				kids = append(kids, k)
+			}
+			m.Kids = kids
+		}
+	}
 	return out, removed
 }
 
@@ -705,6 +758,23 @@ func c14GenB(r *core.Rng) c14Case {
 					n.s.Add(yang.S("if-feature", f))
 				}
 			}
+		}
+	}
+	if r.Chance(1, 3) {
+		// a module-level augment under an if-feature, and statements that go to, or through, a node only it adds: with
+		// the feature off there is nothing for them to reach, and nothing wrong with that
+		m := ms.Mods[0]
+		if fs := m.FindAll("feature"); len(fs) > 0 && m.Kw == "module" {
+			pf, top := c14ModPrefix(m), c14Top(m).Arg
+			f := core.Pick(r, fs).Arg
+			str := func(n string) *yang.Stmt { return yang.S("leaf", n, yang.S("type", "string")) }
+			for _, iff := range c14Top(m).FindAll("if-feature") {
+				c14Top(m).Remove(iff) // (the target of the first augment is there whatever the features)
+			}
+			m.Add(yang.S("augment", "/"+pf+":"+top, yang.S("if-feature", f), yang.S("container", "aug-box", str("in-box"), yang.S("container", "aug-inner", str("deep")))),
+				yang.S("augment", "/"+pf+":"+top+"/"+pf+":aug-box", str("more")),
+				yang.S("augment", "/"+pf+":"+top+"/"+pf+":aug-box/"+pf+":aug-inner", str("deeper")))
+			yang.SortSections(m)
 		}
 	}
 	return c14Case{family: "B", ms: ms}
